@@ -2,6 +2,7 @@ package pure
 
 import (
 	"fmt"
+	"math/big"
 	"strings"
 	"testing"
 
@@ -201,7 +202,48 @@ var c18Alphabet = []string{
 	"/", "/", ".", ".", "-", "+", " ", "", "a", "x", "0x1", "1e1", "١", "１", "\t", "00", "01", ",", ":", "99999999999999999999",
 }
 
+// wrapNumeral writes k*2^w + r in decimal: far out of range, but congruent to the in-range r modulo the width of a
+// machine integer - what a hand-written or narrowing numeral parser turns into r.
+func wrapNumeral(k int64, w uint, r int64) string {
+	v := new(big.Int).Lsh(big.NewInt(k), w)
+	return v.Add(v, big.NewInt(r)).String()
+}
+
+var c18Forms = []struct {
+	kind, sep string
+	hi        []int64
+}{
+	{"group-parse", "/", []int64{31, 7, 255}}, {"group-parse", "/", []int64{31, 2047}}, {"group-parse", "/", []int64{65535}},
+	{"indiv-parse", ".", []int64{15, 15, 255}}, {"indiv-parse", ".", []int64{255, 255}}, {"indiv-parse", ".", []int64{65535}},
+}
+
+// c18GenWrapped: a well-shaped address text in which one component is such a wrapped numeral.
+func c18GenWrapped(rt *rapid.T) c18Case {
+	f := c18Forms[rapid.IntRange(0, len(c18Forms)-1).Draw(rt, "form")]
+	at := rapid.IntRange(0, len(f.hi)-1).Draw(rt, "wrapped-component")
+	parts := make([]string, len(f.hi))
+	for i, hi := range f.hi {
+		r := rapid.Int64Range(0, hi).Draw(rt, "r")
+		if i == at {
+			k := rapid.Int64Range(1, 5).Draw(rt, "k")
+			if rapid.IntRange(0, 4).Draw(rt, "neg") == 0 {
+				k = -k
+			}
+			parts[i] = wrapNumeral(k, rapid.SampledFrom([]uint{8, 16, 31, 32, 63, 64, 64, 64, 128}).Draw(rt, "w"), r)
+		} else {
+			if r == 0 {
+				r = 1
+			}
+			parts[i] = fmt.Sprint(r)
+		}
+	}
+	return c18Case{Kind: f.kind, Text: strings.Join(parts, f.sep)}
+}
+
 func c18GenMalformed(rt *rapid.T) c18Case {
+	if rapid.IntRange(0, 3).Draw(rt, "wrapped") == 0 {
+		return c18GenWrapped(rt)
+	}
 	n := rapid.IntRange(0, 7).Draw(rt, "n")
 	var sb strings.Builder
 	for i := 0; i < n; i++ {
@@ -319,6 +361,28 @@ func TestC18(t *testing.T) {
 		rec.Exhaustive("constructors NewGroupAddr3, NewGroupAddr2, NewIndividualAddr3 (2^24 each) and NewIndividualAddr2 (2^16)")
 		rec.Sample("ctor", c18Case{Kind: "ctor", Ctor: "NewGroupAddr3", Args: []int64{255, 255, 255}})
 	}
+	// 3b. every component of every form replaced by k*2^w + r for the machine widths w, r at the edges of its range
+	for _, f := range c18Forms {
+		for at := range f.hi {
+			for _, w := range []uint{8, 16, 31, 32, 63, 64} {
+				for _, k := range []int64{1, 2, -1} {
+					for _, r := range []int64{0, 1, f.hi[at] / 2, f.hi[at]} {
+						parts := make([]string, len(f.hi))
+						for i := range parts {
+							parts[i] = "1"
+						}
+						parts[at] = wrapNumeral(k, w, r)
+						c := c18Case{Kind: f.kind, Text: strings.Join(parts, f.sep)}
+						do(c, true)
+						if w == 64 && k == 1 && r == 1 {
+							rec.Sample("wrapped-component", c)
+						}
+					}
+				}
+			}
+		}
+	}
+	rec.Exhaustive("every component of every form replaced by k*2^w + r, w in {8,16,31,32,63,64}, k in {1,2,-1}, r in {0,1,hi/2,hi}")
 	// 4. malformed strings from a grammar
 	common.Drive(t, rec, func(rt *rapid.T) c18Case {
 		c := c18GenMalformed(rt)
